@@ -118,10 +118,25 @@ def same_violation(a, b):
 
 
 # ------------------------------------------------------------------------------------ worker
+class RunTimeout(BaseException):
+    """Raised inside a worker (SIGALRM) when one run exceeds its soft wall cap: reported with run index, seed and a
+    full Python traceback as a HARNESS-ERROR; the hard cap (faulthandler, process exit) stays as the last resort."""
+
+
+def _on_alarm(signum, frame):
+    raise RunTimeout()
+
+
 def _worker(args):
     prop_id, master, tier, start, stop, wall_cap = args
+    import signal
     from . import boot
     boot.boot()
+    try:
+        signal.signal(signal.SIGALRM, _on_alarm)
+        soft = True
+    except Exception:
+        soft = False
     from . import shrink
     prop = get_prop(prop_id)
     known = load_known()
@@ -132,6 +147,8 @@ def _worker(args):
         faulthandler.dump_traceback_later(wall_cap, exit=True)
         try:
             seed = run_seed(master, prop_id, i)
+            if soft:
+                signal.setitimer(signal.ITIMER_REAL, max(5.0, wall_cap * 0.6))
             try:
                 case = prop.generate(seed, tier)
             except Exception:
@@ -170,7 +187,14 @@ def _worker(args):
                                           'shrunk_ops': len(small.get('ops', ())), 'shrink_execs': tried})
                 if len(out['violations']) >= 2:
                     break
+        except RunTimeout:
+            out['harness'].append({'run': i, 'seed': run_seed(master, prop_id, i),
+                                   'error': 'run exceeded its soft wall cap (%.0f s):\n%s' % (wall_cap * 0.6, traceback.format_exc()[-3000:])})
+            if len(out['harness']) > 2:
+                break
         finally:
+            if soft:
+                signal.setitimer(signal.ITIMER_REAL, 0)
             faulthandler.cancel_dump_traceback_later()
     return out
 
